@@ -20,7 +20,7 @@ from dataclasses import dataclass, field
 from core.loader import AnalysisError, FuncInfo, Repo
 from core.report import Result
 
-from .c04_norm import leaves, loc, rename_atoms, restrict, show_loc, strip_abs, unbox
+from .c04_norm import ident, leaves, loc, rename_atoms, restrict, show_loc, strip_abs, unbox
 from .c04_symx import TRUE, Event, Formula, SymX, Term, Trace, atom, atoms_of, equivalent, f_and, f_not, f_or, implies, show, show_formula, simplify, substitute, subterms
 from .common import stmt_of, types_of, where
 
@@ -325,6 +325,8 @@ def run_registration(repo: Repo, res: Result, rule: str) -> int:
         # exactly when: nothing but the scan conditions decides about a registration
         if ok:
             accepted = {k for k, r in roles.items() if r == "WORK"} | _name_truthiness_atoms(sx, reg.known, reg)
+            # `entry is _NO_MORE_ENTRIES` / `entry is None`: the end-of-iteration marker of the walk, not a property of a path
+            accepted |= {k for k in atoms_of(f) if (t_ := sx.atoms.get(k)) is not None and t_[0] == "cmp" and t_[1] == "is" and any(o[0] == "lib" or is_none(o) for o in (t_[2], t_[3])) and any(ident(o) == ident(reg.path) for o in (t_[2], t_[3]))}
             # case distinctions of the name computation do not decide about the registration when both cases register
             for k in sorted(k for k, r in roles.items() if r == "NAME" and k not in accepted):
                 f_t, f_f = simplify(substitute(f, {k: True})), simplify(substitute(f, {k: False}))
@@ -449,7 +451,7 @@ def _is_plumbing_test(sx: SymX, key: str) -> bool:
     t = sx.atoms.get(key)
     if t is None:
         return False
-    return t[0] == "cmp" and t[1] == "is" and (is_none(t[2]) or is_none(t[3]))
+    return t[0] == "cmp" and t[1] == "is"  # identity tests (None, sentinels) steer the plumbing, they do not filter paths
 
 
 def is_none(t: Term) -> bool:
